@@ -40,7 +40,7 @@ ASSUMPTIONS = [
     "TableReader files are well-formed numeric rows (two or more columns); malformed rows are outside the statement",
 ]
 REQUIRED = {"stratum:table": 60, "stratum:reader": 60, "stratum:plot": 40, "reader:no_final_newline": 15,
-            "reader:unsorted": 15, "reader:x_scaled": 20, "table:x_scaled": 8, "reader:inside_node_inside": 10, "reader:other_interval_then_node_then_inside": 15, "reader:comments": 15, "plot:end_point_inexact": 8, "reader:other_number_spellings": 15, "table:xy": 15, "table:y_before_x": 4, "table:x_y": 15, "table:potable": 20}
+            "reader:unsorted": 15, "reader:x_scaled": 20, "table:x_scaled": 8, "table:x_scaled:1e-10": 4, "table:x_scaled:far_from_origin": 4, "reader:inside_node_inside": 10, "reader:other_interval_then_node_then_inside": 15, "reader:comments": 15, "plot:end_point_inexact": 8, "reader:other_number_spellings": 15, "table:xy": 15, "table:y_before_x": 4, "table:x_y": 15, "table:potable": 20}
 
 
 @st.composite
@@ -49,15 +49,16 @@ def _table_case(draw, maxpts):
     lo, hi = t["x"][0], t["x"][-1]
     qs = draw(st.lists(gen.fl(lo - 1.0, hi + 1.0), min_size=3, max_size=8))
     # the x axis in other units: the same table with every x times a power of ten
-    xexp = draw(st.sampled_from([0, 0, 0, -10, -3, 4]))
-    if xexp:
-        xs = [x * 10.0 ** xexp for x in t["x"]]
-        if all(a < b for a, b in zip(xs, xs[1:])):
+    # ... or shifted far from the origin with a fine spacing (1000.00, 1000.01, ...): x' = a + b*x
+    a, b = draw(st.sampled_from([(0.0, 1e-10), (0.0, 1.0), (1000.0, 0.01), (0.0, 1.0), (0.0, 1e-3), (0.0, 1e4), (0.0, 1.0)]))
+    if (a, b) != (0.0, 1.0):
+        xs = [a + x * b for x in t["x"]]
+        if all(p < q for p, q in zip(xs, xs[1:])):
             t["x"] = xs
-            qs = [q * 10.0 ** xexp for q in qs]
+            qs = [a + q * b for q in qs]
         else:
-            xexp = 0
-    return {"kind": "table", "table": t, "queries": qs, "potable": draw(st.booleans()), "xexp": xexp}
+            a, b = 0.0, 1.0
+    return {"kind": "table", "table": t, "queries": qs, "potable": draw(st.booleans()), "xmap": [a, b]}
 
 
 @st.composite
@@ -157,9 +158,11 @@ def _check_table(case):
     t = case["table"]
     xs, ys = t["x"], t["y"]
     v, cls = [], ["stratum:table", "table:" + ("x_y" if t["style"] in ("x_y", "y_x") else "xy")] + (["table:y_before_x"] if t["style"] == "y_x" else [])
-    xs_ = 10.0 ** case.get("xexp", 0)
-    if case.get("xexp"):
+    xmap = case.get("xmap") or [0.0, 10.0 ** case.get("xexp", 0)]
+    xs_ = xmap[1]
+    if xmap != [0.0, 1.0]:
         cls.append("table:x_scaled")
+        cls.append("table:x_scaled:" + ("far_from_origin" if xmap[0] else "%g" % xmap[1]))
     scale = max(1.0, max(abs(y) for y in ys))
     f = tableforms.Cubic_Spline_Table_Form(xs, ys)
     fns = {"class": f}
